@@ -52,8 +52,10 @@ def gen_big_case(rng, k):
 # C03 "… executed exactly once if the step is runnable and NEVER OTHERWISE": a command started for a step whose
 # dependencies do not let it proceed is C01's / C02's verdict and C03's as well; C02 "… has not been executed at all"
 ALSO = {"C03": (("C01:start-with-unlicensed-dependency", "C03:executed-although-not-runnable"),
+                ("C01:start-after-dependency-whose-last-execution-failed", "C03:executed-although-not-runnable"),
                 ("C02:executed-or-mislabelled-downstream-of-blocker", "C03:executed-although-not-runnable")),
-        "C02": (("C01:start-with-unlicensed-dependency", "C02:executed-although-a-dependency-does-not-let-it-proceed"),)}
+        "C02": (("C01:start-with-unlicensed-dependency", "C02:executed-although-a-dependency-does-not-let-it-proceed"),
+                ("C01:start-after-dependency-whose-last-execution-failed", "C02:executed-although-a-dependency-does-not-let-it-proceed"))}
 
 
 TIMING_WORDS = ("does-not-complete", "does-not-end", "non-terminal-final-state", "left-unfinished", "replay-op-not-applicable",
@@ -156,6 +158,9 @@ def gen_case(rng, k, maxn):
         nd = rng.choice(nodes)        # a repeating step (only in stopped runs: otherwise it repeats for ever)
         nd["rep"] = True; nd["limit"] = 0; nd["fails"] = rng.choice([0, 0, 1, 2]); nd["cf"] = rng.random() < 0.5
         rep_int = rng.choice([0, 0, 120])     # with an interval the stop can be placed inside the sleep between two iterations
+    for nd in nodes:
+        if rng.random() < 0.25:
+            nd["out"] = True       # the step declares `output:` (capture path of Node.Execute)
     c = {"id": "c%d" % k, "nodes": nodes,
          "maxActive": rng.choice([0, 0, 1, 1, 2, 3, n + 1]),
          "handlers": [rng.choice([0, 1, 1, 2]) for _ in range(4)],
@@ -400,7 +405,8 @@ NOTES = {
 def run_property(chk, prop, replay=None):
     chk.trusted = common.TRUSTED_COMMON + ["quiescence discipline of the scheduler harness (one completion released at a time)"]
     chk.assumptions = [NOTES.get(prop, "")]
-    ties = {"Sched": SCHED_TIE, "Graph": _ties_of("Graph")}
+    # Agent: the scheduler is configured and driven by Agent.Run / newScheduler / signal (settings, context, done channel)
+    ties = {"Sched": SCHED_TIE, "Graph": _ties_of("Graph"), "Agent": _ties_of("Agent")}
     if prop == "C03":
         # "no history is written in dry-run mode" is a theorem about the agent's call order (Lock area model of Agent.Run)
         ties["Lock"] = [t for t in _ties_of("Lock") if t.startswith("h_lock_agent_")]
